@@ -243,6 +243,8 @@ class Scheduler:
             kw['e'] = e
             kw['th'] = self.current
             kw['t'] = self.step
+            if self.now:
+                kw['vt'] = self.now      # virtual time, once it has advanced
             self.tracer(kw)
 
     # -- thread management ------------------------------------------------
